@@ -43,12 +43,12 @@ func run(c *harness.Ctx) {
 
 func main() {
 	harness.Main(&harness.Spec{
-		Property: "C04",
-		Level:    "exploration",
-		Rule:     "the same histories as C01; every submitted attestation is attributed to a validator by BLS-verifying its signature over the reference signing root of its own contents against each account, then compared with that validator's duty entry (committee, position bit, committee size) and with the attestation data reply identified by its unique block root; validators already attested, without account or without signature must yield nothing. distinct = as C01; non-trivial = some validator skipped or repeated",
-		Batches:  func(string) int { return 8 },
-		Parallel: 8,
-		Run:      run,
+		Property:    "C04",
+		Level:       "exploration",
+		Rule:        "the same histories as C01; every submitted attestation is attributed to a validator by BLS-verifying its signature over the reference signing root of its own contents against each account, then compared with that validator's duty entry (committee, position bit, committee size) and with the attestation data reply identified by its unique block root; validators already attested, without account or without signature must yield nothing. distinct = as C01; non-trivial = some validator skipped or repeated",
+		Batches:     func(string) int { return 8 },
+		Parallel:    8,
+		Run:         run,
 		MinDistinct: 100,
 		Assumptions: []string{"a duty for epoch e is never started after an attestation for epoch e+2 has completed (slot-timed jobs; the service deliberately forgets e-2)", "BLS verification (herumi) and the reference SSZ merkleisation are trusted", "when a beacon node lists one validator twice in a duty either of its entries is accepted"},
 	})
